@@ -381,11 +381,25 @@ fn host_digest(dir: &Path) -> String {
 // ------------------------------------------------------------------------------------------------
 // the overlay under test
 
+/// scenario option "no_open": the overlay and its layers negotiate ZERO_MESSAGE_OPEN (no OPEN/RELEASE, requests carry
+/// handle 0, every layer opens the file per request)
+static NO_OPEN: std::sync::atomic::AtomicBool = std::sync::atomic::AtomicBool::new(false);
+fn no_open() -> bool {
+    NO_OPEN.load(std::sync::atomic::Ordering::Relaxed)
+}
+
 fn new_layer(root: &Path) -> std::io::Result<BoxedLayer> {
     let mut config = passthrough::Config::default();
     config.root_dir = root.to_string_lossy().into_owned();
     config.xattr = true;
     config.do_import = true;
+    if no_open() {
+        config.no_open = true;
+        config.cache_policy = passthrough::CachePolicy::Always;
+        let fs = Box::new(PassthroughFs::<()>::new(config)?);
+        fs.init(fuse_backend_rs::abi::fuse_abi::FsOptions::ZERO_MESSAGE_OPEN)?;
+        return Ok(fs as BoxedLayer);
+    }
     let fs = Box::new(PassthroughFs::<()>::new(config)?);
     fs.import()?;
     Ok(fs as BoxedLayer)
@@ -404,6 +418,12 @@ fn build_overlay(upper: Option<&Path>, lowers: &[PathBuf], work: &Path) -> std::
     config.work = work.to_string_lossy().into_owned();
     config.mountpoint = "/nonexistent-mountpoint".to_string();
     config.do_import = true;
+    if no_open() {
+        config.no_open = true;
+        let fs = OverlayFs::new(up, ls, config)?;
+        fs.init(fuse_backend_rs::abi::fuse_abi::FsOptions::ZERO_MESSAGE_OPEN)?;
+        return Ok(fs);
+    }
     let fs = OverlayFs::new(up, ls, config)?;
     fs.import()?;
     Ok(fs)
@@ -456,8 +476,11 @@ impl<'a> Walker<'a> {
     }
 
     fn read_all(&self, ino: u64, size: u64) -> Result<Vec<u8>, i64> {
-        let (h, _, _) = self.fs.open(&self.ctx, ino, libc::O_RDONLY as u32, 0).map_err(|e| errno_of(&e))?;
-        let h = h.unwrap_or(0);
+        let h = match self.fs.open(&self.ctx, ino, libc::O_RDONLY as u32, 0) {
+            Ok((h, _, _)) => h.unwrap_or(0),
+            Err(e) if errno_of(&e) == libc::ENOSYS as i64 && no_open() => 0,
+            Err(e) => return Err(errno_of(&e)),
+        };
         let mut tmp = memfd();
         let mut off = 0u64;
         let mut err = None;
@@ -764,8 +787,11 @@ impl<'a> Exec<'a> {
                 let data = blocks.bytes(&parse_runs(&op["c"]));
                 let off = op["off"].as_u64().unwrap_or(0) * blocks.b as u64;
                 let flags = if op["rdwr"].as_bool().unwrap_or(false) { libc::O_RDWR } else { libc::O_WRONLY };
-                let (h, _, _) = self.fs.open(&self.ctx, ino, flags as u32, 0).map_err(e2n)?;
-                let h = h.unwrap_or(0);
+                let h = match self.fs.open(&self.ctx, ino, flags as u32, 0) {
+                    Ok((h, _, _)) => h.unwrap_or(0),
+                    Err(e) if errno_of(&e) == libc::ENOSYS as i64 && no_open() => 0,
+                    Err(e) => return Err(errno_of(&e)),
+                };
                 let mut res = Ok(());
                 let mut done = 0usize;
                 while done < data.len() {
@@ -860,6 +886,31 @@ impl<'a> Exec<'a> {
                         Ok(())
                     }
                 }
+            }
+            "fallocate" => {
+                // mode 0; handle-less when no_open is negotiated, else through a handle opened for writing
+                let ino = self.resolve(&p)?;
+                self.regular_or_dirlike(ino)?;
+                let off = op["off"].as_u64().unwrap_or(0) * blocks.b as u64;
+                let len = op["len"].as_u64().unwrap_or(1) * blocks.b as u64;
+                if no_open() {
+                    return self.fs.fallocate(&self.ctx, ino, 0, 0, off, len).map_err(e2n);
+                }
+                let (h, _, _) = self.fs.open(&self.ctx, ino, libc::O_WRONLY as u32, 0).map_err(e2n)?;
+                let h = h.unwrap_or(0);
+                let r = self.fs.fallocate(&self.ctx, ino, h, 0, off, len).map_err(e2n);
+                let _ = self.fs.release(&self.ctx, ino, libc::O_WRONLY as u32, h, true, false, None);
+                r
+            }
+            "nprobe" => {
+                // handle-less READ / FSYNC / GETATTR (results not judged; nothing may change)
+                let ino = self.resolve(&p)?;
+                self.regular_or_dirlike(ino)?;
+                let mut tmp = memfd();
+                let _ = self.fs.read(&self.ctx, ino, 0, &mut tmp, 4096, 0, None, libc::O_RDONLY as u32);
+                let _ = self.fs.fsync(&self.ctx, ino, false, 0);
+                let _ = self.fs.getattr(&self.ctx, ino, Some(0));
+                Ok(())
             }
             "truncate" => {
                 let ino = self.resolve(&p)?;
@@ -1353,6 +1404,7 @@ impl Scn {
         std::fs::create_dir_all(&base).unwrap();
         let b = scn["B"].as_u64().unwrap_or(16) as usize;
         let mut blocks = Blocks::new(b);
+        NO_OPEN.store(scn["no_open"].as_bool().unwrap_or(false), std::sync::atomic::Ordering::Relaxed);
         let has_upper = scn["upper"].as_bool().unwrap_or(true);
         let layers = scn["layers"].as_array().cloned().unwrap_or_default();
         let names: Vec<String> = scn["names"].as_array().map(|a| a.iter().map(|x| x.as_str().unwrap().to_string()).collect())
@@ -1375,6 +1427,7 @@ impl Scn {
         }
         std::fs::create_dir_all(base.join("work")).unwrap();
         tr.emit(&json!({"e":"Reset","seg":seg,"id":scn["id"].as_str().unwrap_or("scn"),"B":b,"upper":has_upper,"nl":lowers.len(),"names":names,
+                        "no_open": no_open(),
                         "depth": scn["depth"].as_u64().unwrap_or(2)}));
         // the Layers event is read back from the host (what is really on disk)
         let up_rows = upper.as_ref().map(|u| host_rows(u, &blocks, true)).unwrap_or_default();
@@ -1432,6 +1485,9 @@ impl Scn {
         if !op["c"].is_null() {
             // contents always cross the log as runs
             ev["c"] = Value::Array(parse_runs(&op["c"]).into_iter().map(|(s, i, n)| json!([s, i, n])).collect());
+        }
+        if no_open() {
+            ev["noopen"] = json!(true);
         }
         ev["e"] = json!("Op");
         ev["seg"] = json!(self.seg);
@@ -1735,6 +1791,28 @@ fn stacks(seed: u64) -> Vec<Value> {
         }
         out.push(json!({"id": format!("modes{}", mi), "B": 16, "upper": true, "names": ["a","b","c"], "depth": 3,
                         "layers": [[], lower], "ops": ops}));
+    }
+    // no_open negotiated (ZERO_MESSAGE_OPEN on the overlay and its layers): handle-less requests on lower-only (a),
+    // upper-only (b) and shadowing (c) files; whatever they answer, the lower layers must not change
+    {
+        let fl = |n: &str, l: usize| json!({"p":[n],"t":"file","m":0o644,"c":[[format!("N{}{}", n, l), 0, 2]]});
+        let ops = json!([{"op":"fallocate","p":["a"],"off":2,"len":2}, {"op":"nprobe","p":["a"]}, {"op":"fallocate","p":["c"],"off":1,"len":3},
+                         {"op":"write","p":["a"],"off":1,"c":[["NW",0,1]]}, {"op":"fallocate","p":["a"],"off":3,"len":1},
+                         {"op":"fallocate","p":["b"],"off":2,"len":1}, {"op":"truncate","p":["c"],"len":1}, {"op":"chmod","p":["b"],"m":0o600},
+                         {"op":"create","p":["a","a"],"m":0o644,"excl":true}, {"op":"unlink","p":["c"]}]);
+        out.push(json!({"id": "noopen", "B": 16, "upper": true, "no_open": true, "names": ["a","b","c"], "depth": 3,
+                        "layers": [[fl("b", 0), fl("c", 0)], [fl("a", 1), fl("c", 1)]], "ops": ops}));
+        out.push(json!({"id": "noopen2", "B": 16, "upper": true, "no_open": true, "names": ["a","b","c"], "depth": 3,
+                        "layers": [[], [fl("a", 1), fl("b", 1)], [fl("a", 2), fl("c", 2)]],
+                        "ops": [{"op":"fallocate","p":["c"],"off":0,"len":4}, {"op":"fallocate","p":["a"],"off":2,"len":1}, {"op":"nprobe","p":["b"]},
+                                {"op":"setxattr","p":["b"],"n":"user.j","v":"1"}, {"op":"fallocate","p":["b"],"off":2,"len":1}]}));
+        out.push(json!({"id": "noopen_nu", "B": 16, "upper": false, "no_open": true, "names": ["a","b","c"], "depth": 3,
+                        "layers": [[fl("a", 1), fl("c", 1)]],
+                        "ops": [{"op":"fallocate","p":["a"],"off":2,"len":2}, {"op":"nprobe","p":["a"]}, {"op":"write","p":["c"],"off":0,"c":[["NX",0,1]]}]}));
+        // the same requests in the ordinary mode (through handles)
+        out.push(json!({"id": "falloc", "B": 16, "upper": true, "names": ["a","b","c"], "depth": 3,
+                        "layers": [[fl("b", 0), fl("c", 0)], [fl("a", 1), fl("c", 1)]],
+                        "ops": [{"op":"fallocate","p":["a"],"off":2,"len":2}, {"op":"fallocate","p":["b"],"off":1,"len":3}, {"op":"nprobe","p":["c"]}]}));
     }
     // OPEN flag words on lower-only (a), upper-only (b) and shadowing (c) files
     let fl = |n: &str, l: usize| json!({"p":[n],"t":"file","m":0o644,"c":[[format!("O{}{}", n, l), 0, 2]]});
